@@ -61,8 +61,10 @@ def jit_case():
       st.lists(st.integers(0, 5), min_size=1, max_size=2),     # which args
       M.program_strategy(structural=True, max_size=6),
       st.lists(st.tuples(st.integers(-3, 3),
+                         # (eager edits between calls: structure, and
+                         # Variable metadata edited in place)
                          M.program_strategy(structural=True, min_size=0,
-                                            max_size=2)),
+                                            max_size=2, meta_edit=True)),
                min_size=1, max_size=3),                          # calls
       st.sampled_from(['jit', 'remat', 'jit_remat']),
       M.return_strategy())
@@ -74,7 +76,8 @@ def jit_case():
         'nodes reachable from each other) x mutation program (value updates, '
         'add/delete/rebind/swap attributes, new Variables/Modules/statics) x '
         'nnx.jit / nnx.remat / jit(remat) x 1-3 calls of the same transformed '
-        'function with eager structure edits between calls x graph-valued '
+        'function with eager structure edits and in-place Variable metadata '
+        'edits between calls (programs read metadata) x graph-valued '
         'results (0-2 objects that were reachable before the program ran, '
         'possibly detached by it, bare or inside a newly created holder); '
         'result, canonical form of all arguments and results together, and '
@@ -89,12 +92,20 @@ def jit_family(case, ctx):
   argsA = [nodesA[i % len(nodesA)] for i in arg_idx]
   argsB = [nodesB[i % len(nodesB)] for i in arg_idx]
 
+  def meta_term(a):
+    # every reachable Variable's metadata enters the result (static factor)
+    _, vs = M.reachable(a)
+    return sum((float(v.get_metadata().get('gain', 1.0)) - 1.0)
+               * jnp.sum(v.value) for v in vs)
+
   def f(*a):
     TRACES.append(1)
-    return M.run_program(prog, a[:-1], a[-1], ret)
+    acc, out = M.run_program(prog, a[:-1], a[-1], ret)
+    return acc + meta_term(a[:-1]), out
 
   def f_eager(*a):
-    return M.run_program(prog, a[:-1], a[-1], ret)
+    acc, out = M.run_program(prog, a[:-1], a[-1], ret)
+    return acc + meta_term(a[:-1]), out
 
   with sut('wrap'):
     # direct form or the decorator spelling transform()(f)
